@@ -57,7 +57,7 @@ func ruleMakeCap(c *Ctx, r *RuleResult, fnName string) {
 		}
 		for _, n := range ns {
 			if call := n.(*ssa.Call); call.Call.Value == ssa.Value(fn.Params[0]) {
-				extra = append(extra, P.poly(p).scale(-1))                         // v >= 0
+				extra = append(extra, P.poly(p).scale(-1))                            // v >= 0
 				extra = append(extra, P.poly(p).add(P.poly(n), -1).add(constP(1), 1)) // v < N
 			}
 		}
